@@ -4,6 +4,7 @@ import (
 	"errors"
 	"fmt"
 	"os"
+	"path/filepath"
 	"sync"
 	"time"
 
@@ -359,6 +360,12 @@ func NewSimpleDB(basePath string, extraOptions ...ExtraOption) (*DB, error) {
 	_, err := os.ReadDir(basePath)
 	if err != nil {
 		return nil, err
+	}
+
+	// the folder may be reached through a symbolic link: the walks that discover tables and unfinished compactions
+	// do not follow a link at their root, so we work on the folder it points to
+	if resolved, err := filepath.EvalSymlinks(basePath); err == nil {
+		basePath = resolved
 	}
 
 	extraOpts := &ExtraOptions{
